@@ -19,6 +19,8 @@ pub enum BuildStep {
     SetKey(Lit, Expr),
     /// build a scratch array from the values and push it as one element
     PushArrayOf(Vec<Expr>),
+    /// take the first element off (and drop it)
+    Roll,
 }
 
 fn neg(e: Expr) -> Expr {
@@ -86,6 +88,10 @@ pub fn universe() -> Vec<UVal> {
         u("[1]", vec![Push(vec![n(1.0)])]),
         u("[1,2]", vec![Push(vec![n(1.0), n(2.0)])]),
         u("[1,2]b", vec![Push(vec![n(1.0)]), Push(vec![n(2.0)])]),
+        // the same elements as [1,2], arrived at through a queue that was filled, emptied from the front and filled again
+        // (wherever the elements sit in their storage, the value is the same)
+        u("[1,2]q", vec![Push(vec![n(7.0), n(7.0), n(7.0), n(1.0)]), Roll, Roll, Roll, Push(vec![n(2.0)])]),
+        u("[1,2]r", vec![Push(vec![n(7.0), n(1.0), n(2.0)]), Roll]),
         u("['a']", vec![Push(vec![s("a")])]),
         u("[mysterious]", vec![Push(vec![lit(Lit::Mysterious)])]),
         u("[NaN]", vec![Push(vec![bin(BinOp::Divide, n(0.0), n(0.0))])]),
@@ -108,6 +114,7 @@ impl UVal {
                     value: vec![e.clone()],
                     op: None,
                 }),
+                BuildStep::Roll => out.push(Stmt::Pop { array: pvar(var), dest: None }),
                 BuildStep::PushArrayOf(es) => {
                     // scratch starts as a fresh array each time: assign mysterious, then push
                     out.push(put(lit(Lit::Mysterious), scratch));
@@ -142,6 +149,9 @@ fn eval_build(u: &UVal) -> V {
                 let kv = eval_closed(&lit(k.clone()));
                 let val = ev(e);
                 *model::index_or_insert(&mut cur, &kv, &lim).unwrap() = val;
+            }
+            BuildStep::Roll => {
+                model::pop(&mut cur).unwrap();
             }
             BuildStep::PushArrayOf(es) => {
                 let mut inner = V::Myst;
